@@ -895,6 +895,7 @@ func c18Tags(lists bool, ops []c18Op, mem []c18Res) string {
 	for k := range idemHist {
 		if idemNo[k] {
 			t["idem-cross-mode"] = true
+			delete(t, "nohist-idem")
 		}
 	}
 	if len(t) == 0 {
